@@ -85,6 +85,11 @@ namespace awkward {
 
       while (dst.get() == nullptr  ||  dst.get()->length() < length) {
         ContentPtr piece(nullptr);
+        if (partitionid >= numpartitions()) {
+          // only reachable for empty partitions requested after the data are used up
+          dst = partitions_[(size_t)(numpartitions() - 1)].get()->getitem_nothing();
+          break;
+        }
         ContentPtr src = partitions_[(size_t)partitionid];
         int64_t available = src.get()->length() - index;
         int64_t desired = (dst.get() == nullptr ? length
